@@ -256,13 +256,16 @@ func run(ctx *xplor.Ctx) {
 		if !ctx.Mine(id) {
 			continue
 		}
-		ctx.Distinct(xplor.Hash("state", id))
+		ctx.Count("fresh_states", 1)
 		canon := &canonical{}
 		for _, b := range batches {
 			if ctx.Expired() {
 				return
 			}
 			ctx.Eval(1)
+			if c.Apply(b).ID() != id {
+				ctx.Distinct(xplor.Hash("t", id, fmt.Sprint(b)))
+			}
 			msg := stepFresh(store, c, b, canon)
 			if f1(c, b) {
 				ctx.Count("f1_predicate_cases", 1)
@@ -280,8 +283,6 @@ func run(ctx *xplor.Ctx) {
 			}
 		}
 	}
-	ctx.Count("fresh_states", int64(nstates))
-	ctx.Count("fresh_batches_per_state", 0)
 	ctx.Max("max_fresh_batches", int64(len(batches)))
 	ctx.Sample(map[string]interface{}{"mode": "fresh", "state": tk.ContentFromID(nstates/2, p.freshN).String(), "batch": batches[len(batches)-1].String()})
 
@@ -346,7 +347,7 @@ func main() {
 			"Trie.Update+Commit on a store holding exactly the canonical trie of the content; oracles: Get of every key = map model, root = independent " +
 			"reference root of the resulting content, fresh instance at the new root, previous root still readable, reference roots injective. " +
 			"mode live: every sequence of <=d steps (batch+commit | reset Root to an earlier committed root, as a reorganisation does) on one long-lived instance, " +
-			"same oracles after every step plus every committed root re-read from a fresh instance at the end. distinct = distinct source contents + distinct passing live histories.",
+			"same oracles after every step plus every committed root re-read from a fresh instance at the end. distinct_nontrivial = distinct (content,batch) transitions that change the content + distinct passing live histories.",
 		Assumptions: []string{
 			"sha256 collision freedom (same root => same reachable nodes), which justifies starting every transition from the canonical trie of a content",
 			"values are 32-byte hashes as produced by stateBuffer.export; deletions are the DefaultLeaf value",
